@@ -62,7 +62,11 @@ theorem ers_deletes_listed (h : ersOwner rs st = some d) :
         have hs := F.strat
         rcases ersRole_cases d rs.name with hr | hr | hr
         · rw [hr] at hs
-          obtain ⟨hm, -, -, -⟩ := ersStrategy_active hs F.status
+          rcases ersStrategy_active hs F.status with ⟨hm, -, -, -⟩ | ⟨-, hre, -, -, -⟩
+          case inr =>
+            -- early error of ManageDeployment: no clean-up
+            rw [hre] at hn
+            exact (mem_nil_elim (ersErrResult_empty _ now).2.2.1 hn).elim
           rw [manageDeployment_cleanup _ now now false r hm] at hn
           obtain ⟨p, hp, hpn, _⟩ := cleanup_pod_bound rs released now d items (ersPods d st) name hn
           exact ⟨p, hp, hpn⟩
@@ -81,7 +85,11 @@ theorem ers_deletes_listed (h : ersOwner rs st = some d) :
         have hs := F.strat
         rcases ersRole_cases d rs.name with hr | hr | hr
         · rw [hr] at hs
-          obtain ⟨hm, -, -, -⟩ := ersStrategy_active hs F.status
+          rcases ersStrategy_active hs F.status with ⟨hm, -, -, -⟩ | ⟨-, hre, -, -, -⟩
+          case inr =>
+            -- early error of ManageDeployment: nothing is deleted
+            rw [hre] at hx
+            exact (mem_nil_elim (ersErrResult_empty _ now).2.1 hx).elim
           have ht := manageDeployment_delete_mem _ now now false r hm x hx
           simp only [targeted, dropCanaryNodes, List.mem_filter] at ht
           exact ⟨x.2, (kept_pod_bound rs released now d items (ersPods d st) x.1 x.2 ht.1).1, rfl⟩
